@@ -37,9 +37,13 @@ Inductive bcol :=
 | B_src_is_step     (* EXISTS (SELECT 1 FROM step WHERE step.node = <src> ...): the row exists *)
 | B_ps_deferred | B_ps_unsafe
 | B_has_file_block  (* EXISTS (SELECT 1 FROM pend_file_block WHERE dst_step = pend_step.i) *)
-| B_file_state | B_file_detached.
+| B_file_state | B_file_detached
+| B_has_blocker.    (* i IN (SELECT dst_step FROM pend_blocker) *)
 
 Record arm := mk_arm { a_rel : rel; a_kind : N; a_where : sexpr bcol }.
 
 (* _bucket / _cyclic_bucket *)
 Inductive acol := A_root_kind | A_param | A_attributed.
+
+(* _INSERT_PEND_ATTRIBUTED: a row of pend_blocker (kind, src, dst_step) and, in the recursive step, walk.i *)
+Inductive wcol := W_kind | W_src | W_dst | W_walk_i.
